@@ -67,6 +67,18 @@ func buildQuery(o *Obligation, negate bool, withModel bool) string {
 	}
 	b.WriteString(smtPreamble)
 	c := o.Ctx
+	if o.Focus {
+		goalLeaves := c.leavesOf(o.Goal + " " + strings.Join(o.Extra, " "))
+		o2 := *o
+		o2.Focus = false
+		o2.PC = nil
+		for _, p := range o.PC {
+			if c.leavesWithin(p, goalLeaves) {
+				o2.PC = append(o2.PC, p)
+			}
+		}
+		o = &o2
+	}
 	for _, d := range c.sorts.decls {
 		b.WriteString(d)
 		b.WriteByte('\n')
@@ -75,7 +87,14 @@ func buildQuery(o *Obligation, negate bool, withModel bool) string {
 		b.WriteString(d)
 		b.WriteByte('\n')
 	}
+	var cone map[string]bool
+	if !o.Full {
+		cone = c.coneOf(o)
+	}
 	for _, a := range c.axioms {
+		if cone != nil && !c.inCone(a, cone) {
+			continue
+		}
 		fmt.Fprintf(&b, "(assert %s)\n", a)
 	}
 	if !o.NoQAxioms {
@@ -289,4 +308,186 @@ func sanitizeFile(s string) string {
 		s = s[:150]
 	}
 	return s
+}
+
+
+// ---- cone of influence -------------------------------------------------------------------------
+// The range facts in c.axioms are collected over the whole symbolic execution of a function, so an
+// obligation raised early would otherwise carry facts about terms defined long after it (whose macro
+// expansion, nested ite-merges of later states, can dominate solver time). A query built without
+// Obligation.Full keeps only the facts all of whose declared names are reachable from the path
+// condition, the goal and the retained axioms through definition bodies. Leaving assumptions out is
+// sound for `unsat`; a `sat` answer of a pruned query is re-asked on the full one before it is believed.
+
+var smtTokRe = regexp.MustCompile(`[^\s()]+`)
+
+type declIndex struct {
+	n     int
+	names map[string]int // declared name -> index into decls
+	refs  [][]string     // declared names mentioned by each decl (other than itself)
+	axRef map[string][]string
+	leafMemo map[string]map[string]bool
+}
+
+var declIndexMu sync.Mutex
+
+func (c *Ctx) index() *declIndex {
+	declIndexMu.Lock()
+	defer declIndexMu.Unlock()
+	if c.dIndex != nil && c.dIndex.n == len(c.decls) {
+		return c.dIndex
+	}
+	ix := &declIndex{n: len(c.decls), names: map[string]int{}, axRef: map[string][]string{}}
+	toks := make([][]string, len(c.decls))
+	for i, d := range c.decls {
+		t := smtTokRe.FindAllString(d, -1)
+		toks[i] = t
+		if len(t) >= 2 && (strings.HasPrefix(t[0], "define-") || strings.HasPrefix(t[0], "declare-")) {
+			ix.names[t[1]] = i
+		}
+	}
+	ix.refs = make([][]string, len(c.decls))
+	for i, t := range toks {
+		seen := map[string]bool{}
+		for k, w := range t {
+			if k < 2 {
+				continue
+			}
+			if _, ok := ix.names[w]; ok && !seen[w] {
+				seen[w] = true
+				ix.refs[i] = append(ix.refs[i], w)
+			}
+		}
+	}
+	c.dIndex = ix
+	return ix
+}
+
+func (c *Ctx) coneOf(o *Obligation) map[string]bool {
+	ix := c.index()
+	cone := map[string]bool{}
+	var work []string
+	add := func(text string) {
+		for _, w := range smtTokRe.FindAllString(text, -1) {
+			if _, ok := ix.names[w]; ok && !cone[w] {
+				cone[w] = true
+				work = append(work, w)
+			}
+		}
+	}
+	for _, p := range o.PC {
+		add(p)
+	}
+	for _, p := range o.Extra {
+		add(p)
+	}
+	add(o.Goal)
+	if !o.NoQAxioms {
+		for _, a := range c.qaxioms {
+			add(a)
+		}
+	}
+	if !o.NoFAxioms {
+		for _, a := range c.faxioms {
+			add(a)
+		}
+	}
+	for _, g := range c.globalFacts() {
+		add(g)
+	}
+	for len(work) > 0 {
+		w := work[len(work)-1]
+		work = work[:len(work)-1]
+		for _, r := range ix.refs[ix.names[w]] {
+			if !cone[r] {
+				cone[r] = true
+				work = append(work, r)
+			}
+		}
+	}
+	return cone
+}
+
+func (c *Ctx) inCone(a string, cone map[string]bool) bool {
+	ix := c.index()
+	declIndexMu.Lock()
+	refs, ok := ix.axRef[a]
+	if !ok {
+		seen := map[string]bool{}
+		for _, w := range smtTokRe.FindAllString(a, -1) {
+			if _, d := ix.names[w]; d && !seen[w] {
+				seen[w] = true
+				refs = append(refs, w)
+			}
+		}
+		ix.axRef[a] = refs
+	}
+	declIndexMu.Unlock()
+	for _, r := range refs {
+		if !cone[r] {
+			return false
+		}
+	}
+	return true
+}
+
+
+// ---- focused queries ------------------------------------------------------------------------------
+// With Obligation.Focus the path condition keeps only the conjuncts that speak exclusively about
+// declared (not defined) symbols the goal itself depends on through definition bodies. For a long
+// function this leaves out the facts about everything the goal never reads (results of appends, of
+// reads from other tables, ...). Assumptions are only ever removed, so `unsat` is still a proof; any
+// other answer of a focused query is discarded and the unfocused stages run.
+
+func (ix *declIndex) leaves(c *Ctx, name string) map[string]bool {
+	if ix.leafMemo == nil {
+		ix.leafMemo = map[string]map[string]bool{}
+	}
+	if m, ok := ix.leafMemo[name]; ok {
+		return m
+	}
+	m := map[string]bool{}
+	ix.leafMemo[name] = m // cycles do not occur (definitions refer to earlier names only)
+	i := ix.names[name]
+	if strings.HasPrefix(c.decls[i], "(declare-") {
+		m[name] = true
+		return m
+	}
+	for _, r := range ix.refs[i] {
+		for l := range ix.leaves(c, r) {
+			m[l] = true
+		}
+	}
+	return m
+}
+
+func (c *Ctx) leavesOf(text string) map[string]bool {
+	ix := c.index()
+	declIndexMu.Lock()
+	defer declIndexMu.Unlock()
+	out := map[string]bool{}
+	for _, w := range smtTokRe.FindAllString(text, -1) {
+		if _, ok := ix.names[w]; ok {
+			for l := range ix.leaves(c, w) {
+				out[l] = true
+			}
+		}
+	}
+	return out
+}
+
+func (c *Ctx) leavesWithin(text string, within map[string]bool) bool {
+	ix := c.index()
+	declIndexMu.Lock()
+	defer declIndexMu.Unlock()
+	for _, w := range smtTokRe.FindAllString(text, -1) {
+		if _, ok := ix.names[w]; ok {
+			for l := range ix.leaves(c, w) {
+				if !within[l] {
+					return false
+				}
+			}
+		}
+	}
+	return true
 }
